@@ -50,8 +50,20 @@ def cases(draw, names=None, forms=("B", "B", "B", "A", "C", "C")):
             "x0": draw(st.floats(-3, 3).map(lambda x: round(x, 3)))}
 
 
+@st.composite
+def evo_cases(draw):
+    """qp.evolve(H, x) = exp(-i x H) with H a random Pauli sum on 1-2 wires: generators with several unevenly spaced
+    eigenvalues (the named gates all have <= 3 equally spaced ones)."""
+    n = draw(st.integers(1, 2))
+    words = draw(st.lists(st.text("XYZI", min_size=n, max_size=n).filter(lambda w: set(w) != {"I"}), min_size=2, max_size=4, unique=True))
+    coeffs = [draw(st.sampled_from([1.0, 1.0, 0.5, 2.0, -1.0, 0.75, 1.5])) for _ in words]
+    return {"kind": "evo", "words": words, "coeffs": coeffs, "w": draw(gen.wire_labels(n)), "nb": draw(st.integers(0, 1)),
+            "V": draw(gen.float_list(7)), "W": draw(gen.float_list(7)), "H": draw(gen.float_list(7)),
+            "x0": draw(st.floats(-3, 3).map(lambda x: round(x, 3))), "ctrl": draw(st.booleans())}
+
+
 def strategy(tier):
-    return cases()
+    return st.one_of(cases(), cases(), cases(), cases(), evo_cases())
 
 
 def enumerate_cases(tier):
@@ -83,18 +95,54 @@ def with_param(t, i, x):
     return t
 
 
+def _evo(spec, x):
+    """(PennyLane operator, reference matrix on its wires) for the evolution case."""
+    import pennylane as qp
+    from scipy.linalg import expm
+
+    from pv.ref import gates as G
+
+    ws = [specs.wire(w) for w in spec["w"]]
+    H = qp.sum(*[qp.s_prod(c, qp.prod(*[getattr(qp, "Pauli" + ch if ch != "I" else "Identity")(w) for ch, w in zip(word, ws)]))
+                 for c, word in zip(spec["coeffs"], spec["words"])])
+    op = qp.evolve(H, x)
+    Hm = sum(c * G.pauli_word(word) for c, word in zip(spec["coeffs"], spec["words"]))
+    U = expm(-1j * x * Hm)
+    wires = list(ws)
+    if spec["ctrl"]:
+        op = qp.ctrl(op, control=[("ec", 0)])
+        U = G.controlled(U, 1, [1])
+        wires = [("ec", 0)] + wires
+    return op, U, wires
+
+
 def check(spec):
     import pennylane as qp
 
-    t = spec["t"]
-    leaf = R.leaf_of(t)
-    i = spec["i"]
-    if i >= len(leaf.get("p", [])) or not isinstance(leaf["p"][i], (int, float)):
-        raise Reject("no scalar parameter at this index")
-    op = R.build_target(t)
-    name = R.reg_name(op)
-    sig = f"{name}[{i}]"
-    feats = {"op": name, "leaf": leaf["op"], "param": i, "form": R.form_of(t)}
+    if spec.get("kind") == "evo":
+        return _check_core(spec, evo=True)
+    return _check_core(spec, evo=False)
+
+
+def _check_core(spec, evo):
+    import pennylane as qp
+
+    if evo:
+        op, _, wires_evo = _evo(spec, 0.37)
+        name = "C(Evolution)" if spec["ctrl"] else "Evolution"
+        sig, i = name, 0
+        feats = {"op": name, "leaf": "Evolution", "param": 0, "form": "C" if spec["ctrl"] else "B"}
+        t = leaf = None
+    else:
+        t = spec["t"]
+        leaf = R.leaf_of(t)
+        i = spec["i"]
+        if i >= len(leaf.get("p", [])) or not isinstance(leaf["p"][i], (int, float)):
+            raise Reject("no scalar parameter at this index")
+        op = R.build_target(t)
+        name = R.reg_name(op)
+        sig = f"{name}[{i}]"
+        feats = {"op": name, "leaf": leaf["op"], "param": i, "form": R.form_of(t)}
     try:
         declared = qp.gradients.parameter_frequencies(op)
     except qp.exceptions.ParameterFrequenciesUndefinedError:
@@ -104,7 +152,7 @@ def check(spec):
     freqs = sorted(float(w) for w in declared[i])
     if any(w <= 0 for w in freqs):
         raise Viol("non-positive-frequency", f"{op}: declared {declared[i]}", sig=sig, features=feats)
-    wires = list(op.wires)
+    wires = list(wires_evo) if evo else list(op.wires)
     order = wires + ([("nb", 0)] if spec["nb"] or not wires else [])
     m = len(order)
     if m > 7:
@@ -117,6 +165,10 @@ def check(spec):
     scale = max(1.0, float(np.abs(O).max()))
 
     def f(x):
+        if evo:
+            Ux = sim.embed(_evo(spec, float(x))[1], wires, order)
+            phi = Ux @ psi
+            return float(np.real(np.vdot(phi, WOW @ phi)))
         o = R.build_target(with_param(t, i, float(x)))
         U = sim.embed(sim.op_matrix(o), list(o.wires), order) if len(o.wires) else sim.op_matrix(o)[0, 0] * np.eye(2**m)
         phi = U @ psi
@@ -132,22 +184,25 @@ def check(spec):
     A = np.stack(cols, axis=1)
     coef, *_ = np.linalg.lstsq(A, ys, rcond=None)
     resid = float(np.abs(A @ coef - ys).max())
-    if resid > 1e-8 * scale:
+    # declared frequencies of generator-based gates are rounded to 8 decimals (eigvals_to_frequencies), which alone
+    # leaves a residual of order 1e-8 * sampling range
+    if resid > (1e-6 if evo else 1e-8) * scale:
         raise Viol("spectrum-not-covered", f"{op} parameter {i}: declared frequencies {freqs} leave residual {resid:.3g} "
                                            f"(f std {ys.std():.3g}) on wires {order}", sig=sig, features=feats)
     varies = float(ys.std()) > 1e-4
-    labels = [leaf["op"], "form:" + feats["form"], f"R={Rn}", "varies" if varies else "constant"]
+    labels = [feats["leaf"], "form:" + feats["form"], f"R={Rn}", "varies" if varies else "constant"]
     if Rn:
         with warnings.catch_warnings(record=True) as rec:
             warnings.simplefilter("always")
             rule = np.asarray(qp.gradients.generate_shift_rule(tuple(freqs)), dtype=float)
-        if any("determinant" in str(w.message) for w in rec):
-            raise Reject("generate_shift_rule: near zero determinant (documented caveat)")
+        if any("determinant" in str(w.message) or "ill-conditioned" in str(w.message).lower() for w in rec) or \
+                not np.all(np.isfinite(rule)) or np.abs(rule[:, 0]).max() > 1e6:
+            raise Reject("generate_shift_rule: near zero determinant / ill-conditioned default shifts (documented caveat)")
         h = 1e-3
         for x in (spec["x0"], spec["x0"] + 1.234, spec["x0"] - 2.1):
             got = sum(c * f(x + s) for c, s in rule[:, :2])
             fd = (-f(x + 2 * h) + 8 * f(x + h) - 8 * f(x - h) + f(x - 2 * h)) / (12 * h)
-            if abs(got - fd) > 1e-6 * scale:
+            if abs(got - fd) > (1e-5 if evo else 1e-6) * scale * max(1.0, max(freqs)) ** (1 if evo else 0):
                 raise Viol("shift-rule-not-exact", f"{op} parameter {i}: shift rule from {freqs} gives {got:.9g}, finite difference {fd:.9g} at x={x}",
                            sig=sig, features=feats)
         labels.append("shift-rule-checked")
